@@ -46,6 +46,8 @@ def standard(pid, tier, seed, theorem_files, runs, level="proof", vm_k=40, post=
             # monitors: direct evaluation of the property on the implementation's behaviour
             for mf in st.get("monitor_failures") or []:
                 key = mf.get("key", "")
+                if not key.lower().startswith(pid.lower()):
+                    continue   # a monitor of another property sharing this harness command
                 if chk.known_finding(key, mf.get("what", "")):
                     continue
                 monitor_hits += 1
